@@ -1,5 +1,7 @@
 import Model.PlacementPol
+import Model.PlacementConc
 import Proofs.C10
+import Proofs.C10Conc
 /-!
 # C10 — the replica map as a function of the history of policy events
 
@@ -1213,5 +1215,122 @@ theorem C10_pick_spec_layout (sk : Nat) (sch : Nat → Option Strat) (evs : List
   · cases hr
     exact (C10_ring_sorted _ hd).1
   · cases hr
+
+/-! ## two mutators on two goroutines: the mutators are atomic -/
+
+open PlacementConc in
+/-- the one critical section of a mutator as policies.go has it -/
+def secOf : PolEvent → List (Micro PolState (Option PolState))
+  | .keyspaceChanged ks => [fun sh l => if sh.crashed then (sh, none) else snapshot sh l, compute ks, store]
+  | e => [whole e]
+
+theorem progOf_eq (e : PolEvent) : PlacementConc.progOf e = [secOf e] := by
+  cases e <;> rfl
+
+theorem updateReplicas_frame (s : PolState) (ks : Nat) (h : (updateReplicas s ks).crashed = false) :
+    updateReplicas s ks = { s with ring := (updateReplicas s ks).ring, replicas := (updateReplicas s ks).replicas,
+                                   fresh := (updateReplicas s ks).fresh } := by
+  cases hsch : s.schema ks with
+  | none => simp [updateReplicas, hsch]
+  | some strat =>
+    cases hr : s.ring with
+    | none => simp [updateReplicas, hsch, hr]
+    | some pr =>
+      obtain ⟨p, ring⟩ := pr
+      cases hm : replicaMapOf ring strat with
+      | none => simp [updateReplicas, hsch, hr, hm]
+      | some res =>
+        cases res with
+        | ok rr => simp [updateReplicas, hsch, hr, hm]
+        | error e => simp [updateReplicas, hsch, hr, hm] at h
+
+/-- run alone, a mutator's critical section is the model's event step -/
+theorem exec_secOf (e : PolEvent) (s : PolState) : (PlacementConc.exec (secOf e) (s, none)).1 = polStep s e := by
+  cases e with
+  | keyspaceChanged ks =>
+    by_cases hc : s.crashed = true
+    · have h1 : (PlacementConc.exec (secOf (.keyspaceChanged ks)) (s, none)).1 = s := by
+        simp [secOf, PlacementConc.exec, hc, PlacementConc.compute, PlacementConc.store]
+      rw [h1]
+      simp [polStep, hc]
+    · have hfirst : (if s.crashed = true then (s, (none : Option PolState)) else PlacementConc.snapshot s none)
+          = (s, some s) := by rw [if_neg hc]; rfl
+      have h1 : (PlacementConc.exec (secOf (.keyspaceChanged ks)) (s, none)).1
+          = (PlacementConc.store s (some (updateReplicas s ks))).1 := by
+        simp only [secOf, PlacementConc.exec, List.foldl_cons, List.foldl_nil, hfirst]
+        rfl
+      rw [h1]
+      unfold polStep PlacementConc.store
+      rw [if_neg hc]
+      by_cases h2 : (updateReplicas s ks).crashed = true
+      · simp only [h2, if_true]
+      · have h2' : (updateReplicas s ks).crashed = false := by simpa using h2
+        simp only [h2', Bool.false_eq_true, if_false]
+        exact (updateReplicas_frame s ks h2').symm
+  | _ => rfl
+
+/-- `C10_mutators_linearizable` (op `pconc`): two goroutines each run one mutator of the policy — AddHost, AddHosts,
+RemoveHost, HostUp, HostDown, SetPartitioner, KeyspaceChanged (with its snapshot / schema read / Store micro-steps), in
+any combination — interleaved step by step in ANY schedule under the policy mutex: once both have returned, the
+policy's state (hosts, partitioner, token ring, every replica map) is exactly the state after one of the two SERIAL
+orders of the two events.  So every theorem about event histories (ring of the current hosts, replicas = Cassandra's
+placement, Pick's lookup) holds after concurrent mutators as well. -/
+theorem C10_mutators_linearizable (s : PolState) (ea eb : PolEvent) (sched : List Bool)
+    (hd : ∀ z, ((PlacementConc.run (PlacementConc.start s none
+        (fun x => PlacementConc.progOf (if x then eb else ea))) sched).thr z).secs = []) :
+    (PlacementConc.run (PlacementConc.start s none (fun x => PlacementConc.progOf (if x then eb else ea))) sched).sh
+        = polStep (polStep s ea) eb ∨
+    (PlacementConc.run (PlacementConc.start s none (fun x => PlacementConc.progOf (if x then eb else ea))) sched).sh
+        = polStep (polStep s eb) ea := by
+  have hp : (fun x : Bool => PlacementConc.progOf (if x then eb else ea))
+      = (fun x : Bool => [secOf (if x then eb else ea)]) := by
+    funext x; exact progOf_eq _
+  rw [hp] at hd ⊢
+  have := C10Conc.mutex_serial s none (fun x => secOf (if x then eb else ea)) sched hd
+  simpa [C10Conc.S2, C10Conc.S1, exec_secOf] using this
+
+/-- … and therefore, after any admissible history followed by two concurrent mutators, the policy is in the state of
+the history extended by the two events in one of the two orders -/
+theorem C10_concurrent_history (sk : Nat) (sch : Nat → Option Strat) (evs : List PolEvent) (ea eb : PolEvent)
+    (sched : List Bool)
+    (hd : ∀ z, ((PlacementConc.run (PlacementConc.start (after sk sch evs) none
+        (fun x => PlacementConc.progOf (if x then eb else ea))) sched).thr z).secs = []) :
+    (PlacementConc.run (PlacementConc.start (after sk sch evs) none
+        (fun x => PlacementConc.progOf (if x then eb else ea))) sched).sh = after sk sch (evs ++ [ea, eb]) ∨
+    (PlacementConc.run (PlacementConc.start (after sk sch evs) none
+        (fun x => PlacementConc.progOf (if x then eb else ea))) sched).sh = after sk sch (evs ++ [eb, ea]) := by
+  have := C10_mutators_linearizable (after sk sch evs) ea eb sched hd
+  simpa [after, polRun, List.foldl_append] using this
+
+/-- non-vacuity: a schedule in which B tries to start while A is inside (and is blocked), both complete -/
+example :
+    let m := PlacementConc.run (PlacementConc.start
+      (after 0 (schS2 0) [.setPartitioner .ordered, .addHost hA, .addHost hB, .keyspaceChanged 0]) none
+      (fun x => PlacementConc.progOf (if x then .addHost hC else .keyspaceChanged 0)))
+      [false, false, true, true, false, false, false, true, true, true]
+    (∀ z, (m.thr z).secs = []) ∧ m.sh.hosts.map (·.h.id) = [1, 2, 3] ∧
+      m.sh.ring.map (fun r => r.2.map (fun e => (e.1, e.2.id))) = some [(10, 1), (20, 3), (30, 2)] := by
+  refine ⟨by decide, by decide, by decide⟩
+
+/-- `C10_cex_snapshot_outside_lock`: KeyspaceChanged in the variant that gives the mutex up between its snapshot and
+its Store (Lock; snapshot; Unlock; read schema, compute; Lock; Store; Unlock).  Ring a=10, b=30, keyspace ks0
+SimpleStrategy 2; KeyspaceChanged(ks0) takes its snapshot, AddHost(c=20) runs completely, KeyspaceChanged stores its
+older copy: the policy knows the hosts a, b, c but keeps the ring a, b and the replica map computed on it — the state of
+NEITHER serial order; token 15 belongs to c, the policy answers [b, a], Cassandra places it on [c, b]. -/
+theorem C10_cex_snapshot_outside_lock :
+    let s0 := after 0 (schS2 0) [.setPartitioner .ordered, .addHost hA, .addHost hB, .keyspaceChanged 0]
+    let m := PlacementConc.run (PlacementConc.start s0 none
+      (fun x => if x then PlacementConc.progOf (.addHost hC) else PlacementConc.kcUnlocked 0))
+      [false, false, false, true, true, true, false, false, false, false]
+    (∀ z, (m.thr z).secs = []) ∧
+    m.sh.hosts.map (·.h.id) = [1, 2, 3] ∧
+    m.sh.ring.map (fun r => r.2.map (fun e => (e.1, e.2.id))) = some [(10, 1), (30, 2)] ∧
+    (polStep (polStep s0 (.keyspaceChanged 0)) (.addHost hC)).ring.map (fun r => r.2.map (fun e => (e.1, e.2.id)))
+      = some [(10, 1), (20, 3), (30, 2)] ∧
+    (polStep (polStep s0 (.addHost hC)) (.keyspaceChanged 0)).ring.map (fun r => r.2.map (fun e => (e.1, e.2.id)))
+      = some [(10, 1), (20, 3), (30, 2)] ∧
+    polLookup m.sh 0 15 = .hosts [⟨2, 1, 1⟩, ⟨1, 1, 1⟩] ∧
+    PlacementPol.Spec.lookup m.sh 0 15 = .hosts [⟨3, 1, 1⟩, ⟨2, 1, 1⟩] := by
+  refine ⟨by decide, by decide, by decide, by decide, by decide, by decide, by decide⟩
 
 end C10
